@@ -364,8 +364,28 @@ def r10(p, rep):
         if isinstance(n, ast.Call) and isinstance(n.func, ast.Name) and n.func.id == "isinstance" and len(n.args) == 2 and norm(n.args[0]) in aliases:
             wrapped |= {x.id for x in ast.walk(n.args[1]) if isinstance(x, ast.Name)}
 
+    # (b) a class flag consulted by the printer: `if not self.inner._is_atomic: inner = "{" + inner + "}"`
+    flag, wrap_when = None, None
+    ecfg = common.cfg_of(es)
+    for a in walk_no_nested(es.node):
+        if isinstance(a, (ast.Assign, ast.Return)) and a.value is not None and any(isinstance(x, ast.Constant) and isinstance(x.value, str) and x.value in ("(", "[", "{") for x in ast.walk(a.value)):
+            for t, pol in ecfg.guards_of_ast(a):
+                if isinstance(t, ast.Attribute) and norm(t.value) in ({f"{s0}.inner"} | {tt.id for aa in ast.walk(es.node) if isinstance(aa, ast.Assign) and norm(aa.value) == f"{s0}.inner" for tt in aa.targets if isinstance(tt, ast.Name)}):
+                    flag, wrap_when = t.attr, pol
+
+    def flag_of(c):
+        for k in p.mro(c):
+            if not hasattr(k, "node"):
+                continue
+            for st in k.node.body:
+                if isinstance(st, ast.Assign) and any(isinstance(t, ast.Name) and t.id == flag for t in st.targets) and isinstance(st.value, ast.Constant):
+                    return bool(st.value.value)
+        return None
+
+    from sa.exh import _constructed_names
+
     def shape_of(c):
-        f = c.methods.get("__str__")
+        f = p.lookup_method(c, "__str__")
         if f is None:
             return "inherited"
         kinds = set()
@@ -395,9 +415,16 @@ def r10(p, rep):
     for c in p.subclasses(base):
         if c.module is not m or c.name in top_level_only:
             continue
+        if p.subclasses(c, strict=True) and c.name not in _constructed_names(p):
+            continue  # an intermediate base class without instances of its own
         sh = shape_of(c)
         key = f"{es.qualname}:operand:{c.name}"
-        if sh in ("delimited", "token"):
+        by_flag = flag is not None and flag_of(c) is not None and flag_of(c) == wrap_when
+        if (by_flag or c.name in wrapped) and sh == "delimited":
+            rep.violation("C12.R10", key + ":wrapped-group", es.loc, f"str({c.name}) already is a delimited group, but Ellipsis.__str__ wraps it once more in braces, which the parser does not read: an accepted expression such as '(a + b)...' is printed as text that cannot be parsed back")
+        elif by_flag:
+            rep.ok("C12.R10", key, c.loc, f"{c.name}.{flag} = {flag_of(c)}: Ellipsis.__str__ wraps this operand")
+        elif sh in ("delimited", "token"):
             rep.ok("C12.R10", key, c.loc, f"str({c.name}) is a {sh}: `{c.name}...` re-parses as one operand")
         else:
             ok = c.name in wrapped
@@ -460,53 +487,106 @@ def _enclosing11(f):
         g = g.parent
 
 
-def r12(p, rep):
-    rep.rule("C12.R12", "marker positions derived from a node by arithmetic are only computed for nodes that have positions (synthesised nodes carry -1): the error constructors assert on negative positions", "T-DOM (guard `begin_pos >= 0` dominates position arithmetic)", floor=2)
-    c = p.cls("ExpressionIndicator", "namedtensor.util")
-    n = 0
-    for name, f in c.methods.items():
-        if not name.startswith("get_pos_for"):
-            continue
-        cfg = CFG(f.node)
-        for call in walk_no_nested(f.node):
-            if not (isinstance(call, ast.Call) and isinstance(call.func, ast.Attribute) and call.func.attr in ("extend", "append") and call.args):
-                continue
-            a = call.args[0]
-            recv = {norm(x.value) for x in ast.walk(a) if isinstance(x, ast.Attribute) and x.attr in ("begin_pos", "end_pos")}
-            if not recv:
-                continue
-            plain = isinstance(a, ast.Call) and norm(a.func) == "range" and len(a.args) == 2 and all(isinstance(x, ast.Attribute) and x.attr == w for x, w in zip(a.args, ("begin_pos", "end_pos")))
-            if plain:
-                continue  # range(-1, -1) is empty: harmless for synthesised nodes
-            n += 1
-            node = sorted(recv)[0]
-            facts = cfg.guards_of_ast(call)
-            ok = any(isinstance(t, ast.Compare) and len(t.ops) == 1 and norm(t.left) in (f"{node}.begin_pos", f"{node}.end_pos") and ((isinstance(t.ops[0], (ast.GtE, ast.Gt)) and pol) or (isinstance(t.ops[0], (ast.Lt, ast.LtE)) and not pol)) for t, pol in facts)
-            rep.add("C12.R12", f"{f.qualname}:positions({norm(a)[:40]})", f"{f.module.rel}:{call.lineno}", ok, f"`{norm(a)[:50]}` is computed only when {node}.begin_pos >= 0" if ok else f"`{norm(a)[:60]}` is computed for every node, including synthesised ones whose positions are -1: the positions become negative and the assert of the error constructor fires - the caller gets a bare AssertionError instead of the documented RankError / SemanticError")
-        # higher-order form: self._collect(exprs, is_match, lambda node: <positions of node>): the predicate handed to
-        # the same call decides for which nodes the positions are computed
-        from sa.cfg import decompose
+def exclusive_bound_tests(fnode):
+    """comparisons of a range / slice end (`.stop`, exclusive) with a length: [(Compare, ok?)] - `x.stop <= len(s)` is the
+    test that admits every valid span, `x.stop < len(s)` wrongly rejects the spans that reach the last element"""
+    out = []
+    for c in walk_no_nested(fnode):
+        if isinstance(c, ast.Compare) and len(c.ops) == 1:
+            l, r, op = c.left, c.comparators[0], c.ops[0]
+            is_stop = lambda e: isinstance(e, ast.Attribute) and e.attr == "stop"  # noqa: E731
+            is_len = lambda e: isinstance(e, ast.Call) and isinstance(e.func, ast.Name) and e.func.id == "len"  # noqa: E731
+            if is_stop(l) and is_len(r) and isinstance(op, (ast.Lt, ast.LtE)):
+                out.append((c, isinstance(op, ast.LtE)))
+            elif is_len(l) and is_stop(r) and isinstance(op, (ast.Gt, ast.GtE)):
+                out.append((c, isinstance(op, ast.GtE)))
+    return out
 
-        for call in walk_no_nested(f.node):
-            if not isinstance(call, ast.Call):
-                continue
-            lams = [a for a in call.args if isinstance(a, ast.Lambda) and len(a.args.args) == 1]
-            for lam in lams:
-                prm = lam.args.args[0].arg
-                a = lam.body
-                if not any(isinstance(x, ast.Attribute) and x.attr in ("begin_pos", "end_pos") and norm(x.value) == prm for x in ast.walk(a)):
+
+def r13(p, rep):
+    rep.rule("C12.R13", "the end of a range (exclusive) is allowed to equal the length it is checked against: a marker span may reach the last character of the description", "bounds lint (`.stop < len(..)`) with a positive self-check", floor=1)
+    import os
+
+    n = 0
+    for f in p.funcs.values():
+        if not isinstance(f.node, (ast.FunctionDef, ast.AsyncFunctionDef)):
+            continue
+        for c, ok in exclusive_bound_tests(f.node):
+            n += 1
+            rep.add("C12.R13", f"{f.qualname}:{norm(c)[:50]}", f"{f.module.rel}:{c.lineno}", ok, "an exclusive end may equal the length" if ok else f"`{norm(c)}` compares an exclusive end with `<`: a span that reaches the last element is rejected (a syntax error at the end of the description then fails this internal assertion instead of being reported)")
+    pos = os.path.join(os.path.dirname(os.path.dirname(os.path.abspath(__file__))), "selftest", "positive", "exclusive_bound.py")
+    tree = ast.parse(open(pos).read())
+    from sa.core import set_parents
+
+    set_parents(tree)
+    fns = {x.name: x for x in tree.body if isinstance(x, ast.FunctionDef)}
+    if [ok for _, ok in exclusive_bound_tests(fns["bad"])] != [False] or [ok for _, ok in exclusive_bound_tests(fns["good"])] != [True]:
+        raise AnalysisError("self-check of the exclusive-bound lint failed on selftest/positive/exclusive_bound.py")
+    rep.ok("C12.R13", "self-check:positive-example", "selftest/positive/exclusive_bound.py", "the lint reports the seeded positive example and accepts its corrected twin")
+    rep.ok("C12.R13", "sweep", "einx/", f"{n} comparisons of an exclusive end with a length inspected", nontrivial=False)
+
+
+def r12(p, rep):
+    rep.rule("C12.R12", "marker positions derived from a node by arithmetic are only computed for nodes that have positions (synthesised nodes carry -1): the error constructors assert on negative positions", "T-DOM (a fact `begin_pos >= 0` guards every position arithmetic: branch, conditional expression or the predicate handed over with the callback)", floor=2)
+    from sa.cfg import decompose
+
+    m = p.module("namedtensor.util")
+    n = 0
+
+    def nonneg(t, pol, node):
+        return isinstance(t, ast.Compare) and len(t.ops) == 1 and norm(t.left) in (f"{node}.begin_pos", f"{node}.end_pos") and ((isinstance(t.ops[0], (ast.GtE, ast.Gt)) and pol) or (isinstance(t.ops[0], (ast.Lt, ast.LtE)) and not pol))
+
+    seen = set()
+    for site in ast.walk(m.tree):
+        # arithmetic on a position: <node>.begin_pos / .end_pos as an operand of + or -
+        if not (isinstance(site, ast.BinOp) and isinstance(site.op, (ast.Add, ast.Sub))):
+            continue
+        ops = [x for x in (site.left, site.right) if isinstance(x, ast.Attribute) and x.attr in ("begin_pos", "end_pos")]
+        if not ops:
+            continue
+        node = norm(ops[0].value)
+        # report once per enclosing statement / lambda
+        holder = site
+        while getattr(holder, "_parent", None) is not None and not isinstance(holder, (ast.stmt, ast.Lambda)):
+            holder = holder._parent
+        if (id(holder), node) in seen:
+            continue
+        seen.add((id(holder), node))
+        n += 1
+        facts = []
+        # conditional expressions around the arithmetic
+        cur = site
+        while getattr(cur, "_parent", None) is not None and not isinstance(cur, (ast.FunctionDef, ast.Lambda, ast.Module)):
+            par = cur._parent
+            if isinstance(par, ast.IfExp):
+                if cur is par.body:
+                    facts += decompose(par.test, True)
+                elif cur is par.orelse:
+                    facts += decompose(par.test, False)
+            cur = par
+        scope = cur
+        f = p.func_containing(site) if not isinstance(scope, ast.Lambda) else None
+        if isinstance(scope, ast.FunctionDef):
+            f = p.func_of_node.get(id(scope))
+            if f is not None:
+                facts += common.cfg_of(f).guards_of_ast(site)
+        ok = any(nonneg(t, pol, node) for t, pol in facts)
+        if not ok and isinstance(scope, (ast.Lambda, ast.FunctionDef)):
+            # the arithmetic lives in a callback (`to_pos`): the predicate handed over in the same call decides for which
+            # nodes it runs.  Callback = the lambda itself, or a function referred to by name in a call's arguments
+            cb_name = scope.name if isinstance(scope, ast.FunctionDef) else None
+            for call in ast.walk(m.tree):
+                if not isinstance(call, ast.Call):
                     continue
-                plain = isinstance(a, ast.Call) and norm(a.func) == "range" and len(a.args) == 2 and all(isinstance(x, ast.Attribute) and x.attr == w for x, w in zip(a.args, ("begin_pos", "end_pos")))
-                if plain:
+                is_cb = any(a is scope for a in call.args) or (cb_name is not None and any(isinstance(a, ast.Name) and a.id == cb_name for a in call.args))
+                if not is_cb:
                     continue
-                n += 1
-                ok = False
                 for other in call.args:
                     pred = None
-                    if isinstance(other, ast.Lambda) and other is not lam and len(other.args.args) == 1:
+                    if isinstance(other, ast.Lambda) and other is not scope and len(other.args.args) == 1:
                         pred = (other.args.args[0].arg, other.body)
-                    elif isinstance(other, ast.Name):
-                        g = next((x for x in walk_no_nested(f.node) if isinstance(x, ast.FunctionDef) and x.name == other.id and len(x.args.args) == 1), None)
+                    elif isinstance(other, ast.Name) and other.id != cb_name:
+                        g = next((x for x in ast.walk(m.tree) if isinstance(x, ast.FunctionDef) and x.name == other.id and len(x.args.args) == 1), None)
                         if g is not None:
                             rets = [r.value for r in ast.walk(g) if isinstance(r, ast.Return) and r.value is not None]
                             if len(rets) == 1:
@@ -514,12 +594,13 @@ def r12(p, rep):
                     if pred is None:
                         continue
                     q, body = pred
-                    for t, pol in decompose(body, True):
-                        if pol and isinstance(t, ast.Compare) and len(t.ops) == 1 and norm(t.left) in (f"{q}.begin_pos", f"{q}.end_pos") and isinstance(t.ops[0], (ast.GtE, ast.Gt)):
-                            ok = True
-                rep.add("C12.R12", f"{f.qualname}:positions({norm(a)[:40]})", f"{f.module.rel}:{call.lineno}", ok, f"`{norm(a)[:50]}` is computed only for nodes accepted by a predicate that requires begin_pos >= 0" if ok else f"`{norm(a)[:60]}` is computed for every matching node, including synthesised ones whose positions are -1 (negative positions trip the assert of the error constructor)")
+                    prm = scope.args.args[0].arg if scope.args.args else None
+                    if prm == node and any(nonneg(t, pol, q) for t, pol in decompose(body, True)):
+                        ok = True
+        where = (p.func_of_node.get(id(scope)).qualname if isinstance(scope, ast.FunctionDef) and p.func_of_node.get(id(scope)) else f"{m.name}::<lambda>")
+        rep.add("C12.R12", f"{where}:positions({norm(site)[:40]})", f"{m.rel}:{site.lineno}", ok, f"`{norm(site)[:50]}` is computed only when {node}.begin_pos >= 0" if ok else f"`{norm(site)[:60]}` is computed for every node, including synthesised ones whose positions are -1: the positions become negative and the assert of the error constructor fires - the caller gets a bare AssertionError instead of the documented RankError / SemanticError")
     if n == 0:
-        raise AnalysisError("unrecognised idiom: no position arithmetic found in ExpressionIndicator.get_pos_for_*")
+        raise AnalysisError("unrecognised idiom: no position arithmetic found in namedtensor/util.py")
 
 
 def run(p, rep, tier):
@@ -538,6 +619,7 @@ def run(p, rep, tier):
     r10(p, rep)
     r11(p, rep)
     r12(p, rep)
+    r13(p, rep)
     from . import c06 as _c06
 
     _c06.r6(p, rep, parts=("leaves",))  # the description reaches the parser through the cache-key freezing
